@@ -721,6 +721,7 @@ Section FitT.
     match bases with Some bs => refbasis_rows data bs | None => [] end.
 
   Lemma fit_reduce : forall pos_bs neg_opt data bases perm negidx,
+    1 <= pos_bs ->
     bases_shape_ok data bases ->
     fit_epoch isZ pos_bs neg_opt data bases perm negidx =
       shuffle_data pos_bs (default_neg pos_bs neg_opt) (cdiv (length data) pos_bs)
@@ -729,8 +730,9 @@ Section FitT.
      rand_ok pos_bs (default_neg pos_bs neg_opt) (cdiv (length data) pos_bs)
              data bases (fit_zdata data bases) perm negidx).
   Proof.
-    intros pos_bs neg_opt data bases perm negidx Hsh.
+    intros pos_bs neg_opt data bases perm negidx Hp Hsh.
     unfold fit_epoch, fit_rand_ok, rand_ok, fit_randint_request, fit_zdata.
+    rewrite (proj2 (Nat.eqb_neq pos_bs 0)) by lia.
     destruct bases as [bs|]; [|split; reflexivity].
     unfold bases_shape_ok in Hsh. rewrite refbasis_exact, <- Hsh, Nat.eqb_refl.
     split; reflexivity.
@@ -748,9 +750,9 @@ Section FitT.
     Let nb := cdiv (length data) pos_bs.
     Let Hn : 1 <= neg_bs := default_neg_pos pos_bs neg_opt Hp.
     Let Hr' : rand_ok pos_bs neg_bs nb data bases (fit_zdata data bases) perm negidx :=
-      proj1 (proj2 (fit_reduce pos_bs neg_opt data bases perm negidx Hsh)) Hr.
+      proj1 (proj2 (fit_reduce pos_bs neg_opt data bases perm negidx Hp Hsh)) Hr.
     Let Hrun' : shuffle_data pos_bs neg_bs nb data bases (fit_zdata data bases) perm negidx = Some batches :=
-      eq_trans (eq_sym (proj1 (fit_reduce pos_bs neg_opt data bases perm negidx Hsh))) Hrun.
+      eq_trans (eq_sym (proj1 (fit_reduce pos_bs neg_opt data bases perm negidx Hp Hsh))) Hrun.
 
     Theorem fit_pos_batches_partition :
       map Some (pos_rows batches) = map (nth_error data) perm /\ Permutation (pos_rows batches) data.
@@ -795,14 +797,20 @@ Section FitT.
 
   (* under the contract of the random calls the data pipeline never raises *)
   Theorem fit_succeeds : forall pos_bs neg_opt data bases perm negidx,
+    1 <= pos_bs ->
     bases_shape_ok data bases ->
     fit_rand_ok pos_bs neg_opt data bases perm negidx ->
     exists batches, fit_epoch isZ pos_bs neg_opt data bases perm negidx = Some batches.
   Proof.
-    intros pos_bs neg_opt data bases perm negidx Hsh Hr.
-    destruct (fit_reduce pos_bs neg_opt data bases perm negidx Hsh) as [-> E].
+    intros pos_bs neg_opt data bases perm negidx Hp Hsh Hr.
+    destruct (fit_reduce pos_bs neg_opt data bases perm negidx Hp Hsh) as [-> E].
     apply shuffle_succeeds; trivial. now apply E.
   Qed.
+
+  (* pos_batch_size = 0: the real code raises ZeroDivisionError at ceil(N / 0) *)
+  Lemma fit_zero_batch_size : forall neg_opt data bases perm negidx,
+    fit_epoch isZ 0 neg_opt data bases perm negidx = None.
+  Proof. reflexivity. Qed.
 End FitT.
 
 (* ------------------------------------------------------------------ non-vacuity *)
